@@ -13,6 +13,7 @@ import (
 	"verifharness/gen"
 	"verifharness/mc"
 	"verifharness/props/reg"
+	"verifharness/sched"
 )
 
 func init() { reg.Register(&reg.Prop{ID: "C08", Run: Run, Replay: Replay}) }
@@ -448,6 +449,9 @@ func Run(r *mc.Run) {
 		return true
 	})
 
+	// the same entry points called at the same time on independent inputs: every schedule of small thread programs (instrumented build)
+	sched.Explore(r, "concurrent-calls", ConcurrentPrograms())
+
 	// encoder sequences
 	reps := []In{
 		{[]string{"A"}, []string{"v"}, false},
@@ -554,6 +558,9 @@ func Run(r *mc.Run) {
 }
 
 func Replay(scenario string, raw json.RawMessage) []*mc.Violation {
+	if scenario == "concurrent-calls" {
+		return sched.Replay(scenario, ConcurrentPrograms(), raw)
+	}
 	if scenario == "encoder-sequences" {
 		var in EncIn
 		if mc.UnmarshalInput(raw, &in) == nil {
